@@ -395,9 +395,10 @@ def run_lattice(p):
         if out_fn is not None:
             check_summary_files(out_fn, [use[i][0] for i in order], [NRG[i] for i in order], len(exp), bad, what)
         if pcols and exp:      # files without row groups carry no paths to derive partition values from
-            # only files with rows contribute paths; with an inferred root every level is derivable when those
-            # files lie in >= 2 distinct top-level directories
-            distinct_dirs = len({use[i][2][0] for i in order if use[i][1]})
+            # only files with rows contribute partition VALUES; the inferred root is the common directory of all the
+            # listed files (a file without rows counts too), so every level is derivable when the listed files lie
+            # in >= 2 distinct top-level directories
+            distinct_dirs = len({use[i][2][0] for i in order})
             # a directory opened by name is its own root: every level below it is a partition level
             if root_mode in ("given", "given_slash") or distinct_dirs >= 2 or entry == "dir":
                 for lvl, pcol in enumerate(pcols):
